@@ -40,10 +40,12 @@ func (f *Frame) structRefStore(h *Heap, t types.Type, ref Term, v Term) *Heap {
 func (f *Frame) locRead(h *Heap, l *Loc) Term {
 	var root Term
 	switch l.Kind {
+	case locLocal:
+		root = h.Comp(l.Comp, l.CompSort)
 	case locField, locCell:
 		root = Sel(h.Comp(l.Comp, l.CompSort), l.Base)
 	case locElem:
-		root = Sel(Sel(h.Comp(l.Comp, l.CompSort), l.Base), l.Idx)
+		root = f.w.Sorts.Elt(Sel(h.Comp(l.Comp, l.CompSort), l.Base), l.Off, l.Idx)
 	}
 	for _, p := range l.Path {
 		root = f.w.Sorts.FieldOf(root, p)
@@ -54,19 +56,23 @@ func (f *Frame) locRead(h *Heap, l *Loc) Term {
 func (f *Frame) locWrite(h *Heap, l *Loc, v Term) *Heap {
 	var root Term
 	switch l.Kind {
+	case locLocal:
+		root = h.Comp(l.Comp, l.CompSort)
 	case locField, locCell:
 		root = Sel(h.Comp(l.Comp, l.CompSort), l.Base)
 	case locElem:
-		root = Sel(Sel(h.Comp(l.Comp, l.CompSort), l.Base), l.Idx)
+		root = f.w.Sorts.Elt(Sel(h.Comp(l.Comp, l.CompSort), l.Base), l.Off, l.Idx)
 	}
 	nv := f.updatePath(root, l.Path, v)
 	var nc Term
 	switch l.Kind {
+	case locLocal:
+		nc = nv
 	case locField, locCell:
 		nc = Store(h.Comp(l.Comp, l.CompSort), l.Base, nv)
 	case locElem:
 		c := h.Comp(l.Comp, l.CompSort)
-		nc = Store(c, l.Base, Store(Sel(c, l.Base), l.Idx, nv))
+		nc = Store(c, l.Base, Store(Sel(c, l.Base), Add(l.Off, l.Idx), nv))
 	}
 	return h.Set(l.Comp, f.vc.Define("h."+l.Comp, nc))
 }
@@ -492,6 +498,15 @@ func (f *Frame) value(ins ssa.Value, st State) (Val, State) {
 		}
 	case *ssa.Alloc:
 		t := ins.Type().Underlying().(*types.Pointer).Elem()
+		if _, isArr := t.Underlying().(*types.Array); !ins.Heap && !isArr {
+			// non-escaping local variable: lives outside the heap
+			so := f.w.Sorts.SortOf(t)
+			vc.n++
+			comp := fmt.Sprintf("L!%s%s!%d", f.label0(), ins.Name(), vc.n)
+			vc.compSorts[comp] = so
+			st.Heap = st.Heap.Set(comp, f.w.Sorts.Zero(so))
+			return Val{Loc: &Loc{Kind: locLocal, Comp: comp, CompSort: so, Sort: so, Root: so, Type: t}}, st
+		}
 		r, h := f.allocRef(st, ins.Name())
 		st.Heap = h
 		switch u := t.Underlying().(type) {
@@ -540,7 +555,7 @@ func (f *Frame) value(ins ssa.Value, st State) (Val, State) {
 		case *types.Slice:
 			es := f.w.Sorts.SortOf(u.Elem())
 			f.safety("bounds", st, And(Le(IntLit(0), i), Lt(i, SLen(x.T))), "index out of range at "+f.pos(ins))
-			return Val{Loc: &Loc{Kind: locElem, Comp: memComp(es), CompSort: memSort(es), Base: SArr(x.T), Idx: vc.Define("ix", Add(SOff(x.T), i)), Sort: es, Root: es, Type: u.Elem()}}, st
+			return Val{Loc: &Loc{Kind: locElem, Comp: memComp(es), CompSort: memSort(es), Base: SArr(x.T), Idx: i, Off: SOff(x.T), Sort: es, Root: es, Type: u.Elem()}}, st
 		case *types.Pointer:
 			a := u.Elem().Underlying().(*types.Array)
 			es := f.w.Sorts.SortOf(a.Elem())
@@ -550,7 +565,7 @@ func (f *Frame) value(ins ssa.Value, st State) (Val, State) {
 			}
 			f.safety("nil", st, Ne(x.T, IntLit(0)), "nil array pointer at "+f.pos(ins))
 			f.safety("bounds", st, And(Le(IntLit(0), i), Lt(i, IntLit(a.Len()))), "index out of range at "+f.pos(ins))
-			return Val{Loc: &Loc{Kind: locElem, Comp: memComp(es), CompSort: memSort(es), Base: x.T, Idx: i, Sort: es, Root: es, Type: a.Elem()}}, st
+			return Val{Loc: &Loc{Kind: locElem, Comp: memComp(es), CompSort: memSort(es), Base: x.T, Idx: i, Off: IntLit(0), Sort: es, Root: es, Type: a.Elem()}}, st
 		}
 	case *ssa.Index:
 		x := f.val(ins.X).T
@@ -706,7 +721,7 @@ func (f *Frame) convert(ins *ssa.Convert, st State) (Val, State) {
 				i := Term{"i", SInt}
 				vc.Assume(Implies(st.PC, Eq(StrLen(r), SLen(x.T))))
 				vc.Assume(Forall([]Term{i}, Implies(And(st.PC, Le(IntLit(0), i), Lt(i, SLen(x.T))),
-					Eq(StrAt(r, i), Sel(Sel(m, SArr(x.T)), Add(SOff(x.T), i)))), []Term{StrAt(r, i)}))
+					Eq(StrAt(r, i), f.w.Sorts.Elt(Sel(m, SArr(x.T)), SOff(x.T), i))), []Term{StrAt(r, i)}))
 				return Val{T: r}, st
 			}
 			// []rune → string: contents unknown
